@@ -6,7 +6,7 @@ PLAN = {
         "text": "For an ARBITRARY state of the recency map (the lock hands out any state: the rely of a lock-protected map), any clock value, generation, mask and timeout, should_store is proved to perform exactly one step of the property's per-series state machine for (kind, key) -- keep/forget decision, boundary now - t == timeout keeps, deletion only after the registry confirmed it -- and to leave the state of every other (kind', key') untouched. By induction over observations this is the property for all histories, keys, kinds, masks and timeouts.",
         "note": "Assumed: std Mutex is a lock; vstd HashMap specs + an assumed get_mut spec; quanta Instant subtraction saturates; K's Hash/Eq/Clone are consistent (C03 for metrics::Key); registry deletion is an opaque call; generation bump after every update is checked in the Kani part.",
     },
-    "min_obligations": {"quick": 9, "thorough": 9},
+    "min_obligations": {"quick": 16, "thorough": 16},
     "assumptions": [
         "std::sync::Mutex is a lock; the protected value at acquisition is arbitrary (assume_specification without ensures)",
         "vstd specifications of HashMap::{insert, remove}; ASSUMED specification of HashMap::get_mut (hit: mutable access to exactly that key's value, miss: no change)",
@@ -17,8 +17,25 @@ PLAN = {
         "usize is 64 bit",
     ],
     "verus": [
-        {"template": "recency.verus.rs", "tier": "quick", "rlimit": 50, "min_functions": 9},
+        {"template": "recency.verus.rs", "tier": "quick", "rlimit": 50, "min_functions": 12},
     ],
+    "kani": [{
+        "crate": "metrics-util", "parallel": 4,
+        "modules": [
+            {"file": "metrics-util/src/kind.rs", "mod": "__verif_c12_kind", "src": "kind.kani.rs"},
+            {"file": "metrics-util/src/registry/recency.rs", "mod": "__verif_c12_gen", "src": "generational.kani.rs"},
+        ],
+        "functions": [
+            {"item": "MetricKindMask::matches, BitOr for MetricKindMask", "file": "metrics-util/src/kind.rs"},
+            {"item": "Generational::{new,get_generation,get_inner,with_increment}, CounterFn/GaugeFn for Generational<T>", "file": "metrics-util/src/registry/recency.rs"},
+        ],
+        "harnesses": [
+            {"name": "c12_mask_matches", "obligation": "C12/kani/c12_mask_matches", "clause": "matches(kind) <=> kind's bit set, all 3 x 256", "kind": "complete", "tier": "quick", "timeout": 600, "replay": True, "covers": 2},
+            {"name": "c12_mask_bitor", "obligation": "C12/kani/c12_mask_bitor", "clause": "(a|b).matches(k) <=> a.matches(k) || b.matches(k)", "kind": "complete", "tier": "quick", "timeout": 600, "replay": True},
+            {"name": "c12_with_increment", "obligation": "C12/kani/c12_with_increment", "clause": "generation' == generation + 1 AFTER f ran; result forwarded", "kind": "complete", "tier": "quick", "timeout": 600, "replay": True, "module": "__verif_c12_gen"},
+            {"name": "c12_generational_ops", "obligation": "C12/kani/c12_generational_ops", "clause": "each counter/gauge op through Generational bumps the generation exactly once", "kind": "complete", "tier": "quick", "timeout": 600, "replay": True, "module": "__verif_c12_gen"},
+        ],
+    }],
     "witnesses": [
         {"match": r"should_store", "src": "witness_two_kinds.rs", "crate": "metrics-util", "file": "metrics-util/src/registry/recency.rs"},
     ],
